@@ -112,6 +112,18 @@ func checkC08(c CaseC08) error {
 	if d := sgen.Diff(got, sgen.Normalize(s0).SortedServices()); d != "" {
 		return vt.Failf("permuting the rows of stop_times.txt / shapes.txt changed the result: %s", d)
 	}
+	// the result of the first call, still held by the caller, is in the same order after the later call
+	for i := range s.Trips {
+		st := s.Trips[i].StopTimes
+		for j := 0; j+1 < len(st); j++ {
+			if st[j].StopSequence >= st[j+1].StopSequence {
+				return vt.FailSig("retained-result-altered", "after a later ParseStatic call, Trips[%d] (%q) of the EARLIER result is no longer ascending by stop_sequence: %d then %d", i, s.Trips[i].ID, st[j].StopSequence, st[j+1].StopSequence)
+			}
+		}
+	}
+	if d := sgen.Diff(sgen.Normalize(s).SortedServices(), got); d != "" {
+		return vt.FailSig("retained-result-altered", "a later ParseStatic call changed the result of the earlier one (order of its collections included): %s", d)
+	}
 	return nil
 }
 
